@@ -1,4 +1,4 @@
-import Pypika.BuilderFrame
+import Pypika.BuilderLocal
 import Pypika.Generated.Effects
 import Pypika.Agree.Classes
 /-! Agree/BuilderWrites: the write set the model gives each builder call (`B.writes`, the subject of `B.step_frame`) is the set
@@ -92,6 +92,26 @@ theorem writes_agree :
         | some src =>
           let extra := helpers.flatMap fun h => (lookupEff Gen.helperEffects (builderName cls) h).getD []
           sameSet ((writes cls call).map fun w => w.attr.toList) (src ++ extra)) = true := by
+  decide +kernel
+
+def lookupReads (cls meth : String) : Option (List Str) :=
+  (Gen.builderReads.find? fun (c, m, _) => decide (c = cls.toList) && decide (m = meth.toList)).map fun x => x.2.2
+
+def slotAttrs : List Str := allSlots.map fun w => w.attr.toList
+
+/-- **the tie for `reads`**: for every call site and class, the slots the model's call looks at or writes are exactly the
+attributes of `self` (among those the model carries) that the source of the method loads or writes — a method that starts to
+consult another clause of the statement at call time breaks this -/
+theorem reads_agree :
+    callSites.all (fun (meth, helpers, call, classes) =>
+      classes.all fun cls =>
+        match lookupEff Gen.builderEffects (builderName cls) meth, lookupReads (builderName cls) meth with
+        | some srcW, some srcR =>
+          let extraW := helpers.flatMap fun h => (lookupEff Gen.helperEffects (builderName cls) h).getD []
+          let extraR := helpers.flatMap fun h => (lookupReads (builderName cls) h).getD []
+          sameSet ((reads cls call ++ writes cls call).map fun w => w.attr.toList)
+                  ((srcR ++ extraR).filter slotAttrs.contains ++ srcW ++ extraW)
+        | _, _ => false) = true := by
   decide +kernel
 
 /-- every `@builder` method the source defines on a query class has a call site above, or is listed as handled elsewhere -/
